@@ -494,6 +494,13 @@ func TestVerifC19Sharp(t *testing.T) {
 	if err := clientProc.waitForResponses(); err != nil {
 		out.Put(map[string]any{"note": "client process", "error": err.Error()})
 	}
+	if only := verifutil.Env("VERIF_ONLY", ""); only == "" || strings.Contains(only, "raw/cstream") {
+		nRaw, err := c19RawStreams(out)
+		if err != nil {
+			t.Fatalf("raw streams: %v", err)
+		}
+		nServer += nRaw
+	}
 	out.Put(map[string]any{"summary": true, "limit": serverReceiveLimit, "server_rpcs": nServer, "client_rpcs": nClient,
 		"inconclusive": inconclusive, "near_limit": nearLimit, "instances": len(lib.casesByServer), "config_cases": len(cfgCases)})
 }
